@@ -365,23 +365,26 @@ def nvariants(s):
     return n
 
 
-def build(s, k=0):
+def build(s, k=0, py=False):
+    '''py=True: numeric atoms are built as plain Python objects (inside nutils constructors, which insist on
+    Python ints/bools/floats); the other nodes still vary with k'''
     t = s[0]
+    ka = 0 if py else k
     if t == 'none':
         return None
     if t == 'ellipsis':
         return Ellipsis
     if t == 'bool':
-        return (bool(s[1]), numpy.bool_(s[1]))[k % 2]
+        return (bool(s[1]), numpy.bool_(s[1]))[ka % 2]
     if t == 'int':
         v = _int_variants(int(s[1]))
-        return v[k % len(v)]()
+        return v[ka % len(v)]()
     if t == 'float':
         v = _float_variants(float(s[1]))
-        return v[k % len(v)]()
+        return v[ka % len(v)]()
     if t == 'complex':
         v = _complex_variants(complex(float(s[1]), float(s[2])))
-        return v[k % len(v)]()
+        return v[ka % len(v)]()
     if t == 'str':
         return s[1] if k % 2 == 0 else ''.join(list(s[1]))  # a fresh, non-interned str object
     if t == 'bytes':
@@ -389,11 +392,11 @@ def build(s, k=0):
     if t == 'type':
         return _types()[s[1]]
     if t == 'tuple':
-        return tuple(build(i, k) for i in s[1])
+        return tuple(build(i, k, py) for i in s[1])
     if t == 'list':
-        return [build(i, k) for i in s[1]]
+        return [build(i, k, py) for i in s[1]]
     if t in ('set', 'frozenset'):
-        items = [build(i, k) for i in s[1]]
+        items = [build(i, k, py) for i in s[1]]
         if k % 2:
             items.reverse()
         out = set()
@@ -403,7 +406,7 @@ def build(s, k=0):
             raise ValueError('spec lists Python-equal set members: {}'.format(expr(s)))
         return out if t == 'set' else frozenset(out)
     if t == 'dict':
-        pairs = [(build(a, k), build(b, k)) for a, b in s[1]]
+        pairs = [(build(a, k, py), build(b, k, py)) for a, b in s[1]]
         if k % 2:
             pairs.reverse()
         out = {}
@@ -418,7 +421,7 @@ def build(s, k=0):
         return _build_arraydata(s, k)
     if t == 'frozendict':
         from nutils import types
-        pairs = [(build(a, k), build(b, k)) for a, b in s[1]]
+        pairs = [(build(a, k, py), build(b, k, py)) for a, b in s[1]]
         if k % 2:
             pairs.reverse()
         if k % 4 < 2:
@@ -428,7 +431,7 @@ def build(s, k=0):
         return types.frozendict(types.frozendict(dict(pairs)))
     if t == 'frozenmultiset':
         from nutils import types
-        items = [build(i, k) for i in s[1]]
+        items = [build(i, k, py) for i in s[1]]
         k5 = k % 5
         if k5 == 1:
             items.reverse()
@@ -444,7 +447,7 @@ def build(s, k=0):
         from . import c17_classes as K
         if k % 4 >= 2 and canon(s[1]) == ['str', 'ident-a']:
             return K.Holder.meth if k % 4 == 2 else K.Holder().meth  # used as a "method": behaves like a staticmethod
-        return K.hf(build(s[1], k), k)
+        return K.hf(build(s[1], k, py), k)
     if t == 'hfsrc':
         from . import c17_classes as K
         return getattr(K, s[1]) if '.' not in s[1] else getattr(getattr(K, s[1].split('.')[0]), s[1].split('.')[1])
@@ -453,14 +456,14 @@ def build(s, k=0):
         return _util.function(s[1])
     if t == 'obj':
         from .c17_objects import build_obj
-        return build_obj(s, k, build)
+        return build_obj(s, k, build, py)
     if t == 'inst':
         cls = _inst_classes()[s[1]]
         kc = k % 2 if s[1].startswith('solver.') else k  # the strategy dataclasses insist on float instances (float64 is one)
-        vals = [(p, build(a, kc)) for p, a in s[2]]
+        vals = [(p, build(a, kc, py)) for p, a in s[2]]
         return cls(*[v for p, v in vals]) if k % 2 == 0 else cls(**dict(reversed(vals)))
     if t == 'method':
-        return getattr(build(s[1], k), s[2])
+        return getattr(build(s[1], k, py), s[2])
     if t == 'bytesio':
         data, pos = bytes.fromhex(s[1]), int(s[2])
         if k % 2 == 0:
@@ -580,3 +583,36 @@ def build_route(s, route):
     if route == 'pickle':
         return pickle.loads(pickle.dumps(build(s, 0)))
     return build(s, int(route[1:]))
+
+
+_ND_LAYOUTS = ['c-contiguous', 'fortran', 'strided-view', 'negative-strides', 'read-only', 'unaligned']
+_OBJ_CALLS = ['positional', 'keyword', 'positional-defaults-omitted', 'keyword-defaults-omitted']
+
+
+def variant_label(s, route):
+    'name of what the route changes at node s (root-cause part of a violation key)'
+    if not route.startswith('v'):
+        return route
+    k = int(route[1:])
+    t = s[0]
+    if t in ('bool', 'int', 'float', 'complex'):
+        return 'numpy-scalar'
+    if t in ('set', 'frozenset', 'dict'):
+        return 'insertion-order'
+    if t == 'ndarray':
+        return _ND_LAYOUTS[k % 6]
+    if t == 'arraydata':
+        src = _ad_sources(s[1], tuple(s[2]), s[3])[0]
+        k %= len(src) + 2
+        return 'from-' + (src[k][0] if k < len(src) else ('arraydata', 'reshape')[k - len(src)])
+    if t == 'obj':
+        from .c17_objects import obj_nvariants
+        k %= obj_nvariants(s)
+        return _OBJ_CALLS[k] if k < 4 else 'alternative-constructor-{}'.format(k - 4)
+    if t == 'inst':
+        return ('positional', 'keyword')[k % 2]
+    if t == 'frozendict':
+        return ('dict', 'dict-reversed', 'pairs', 'frozendict-reversed')[k % 4]
+    if t == 'frozenmultiset':
+        return ('list', 'reversed', 'tuple', 'generator', 'union')[k % 5]
+    return 'variant{}'.format(k % max(1, _NVAR_FIXED.get(t, 1)))
